@@ -1,8 +1,7 @@
 import Geo.Props.C15
-open Geo
-#print axioms T15_from_lines_degenerate
-#print axioms T15_from_lines_components
-#print axioms T15_pencil_cubic
-#print axioms T15_common_point_on_component
-#print axioms T15_pencil_member
-#print axioms T15_from_planes_minor
+#print axioms Geo.T15_from_lines_degenerate
+#print axioms Geo.T15_from_lines_components
+#print axioms Geo.T15_pencil_cubic
+#print axioms Geo.T15_common_point_on_component
+#print axioms Geo.T15_pencil_member
+#print axioms Geo.T15_from_planes_minor
